@@ -3,7 +3,7 @@
    input, computed by the real go/types in the harness; the field-by-field agreement of the whole
    dump with go/types is decided by the correspondence run, the theorems below settle the parts
    that are gengo's own logic: name splitting, the builtin table, kinds, generic origins). *)
-Require Import Gengo.Base.Str Gengo.Model.Universe Gengo.Proofs.UniverseProofs Gengo.Proofs.CanonProofs Gengo.Proofs.FaithfulProofs Gengo.Proofs.AliasProofs.
+Require Import Gengo.Base.Str Gengo.Model.Universe Gengo.Proofs.UniverseProofs Gengo.Proofs.CanonProofs Gengo.Proofs.FaithfulProofs Gengo.Proofs.AliasProofs Gengo.Proofs.IndepProofs Gengo.Proofs.MethodsProofs Gengo.Proofs.ExactProofs Gengo.Proofs.GenericProofs.
 
 (* tcNameToName / goNameToName: a spelling that is not an anonymous type's (and, for v2, carries no
    type arguments) is cut at its LAST dot: package path before it, a dot-free type name after it *)
@@ -146,6 +146,29 @@ Theorem C01_defined_type_faithful : forall v2 p, named_ok v2 p -> forall f u use
             Forall2 (method_is v2 p) ms (e_methods e).
 Proof. exact alias_faithful. Qed.
 Print Assumptions C01_defined_type_faithful.
+
+(* "the description of a generic declaration does not depend on which of its uses happens to be seen
+   first" (v2): two nodes that denote one declaration -- the declaration itself or any instantiation:
+   same origin, same type parameters, same "Name[P,Q]" -- each met first in its own universe, leave
+   the SAME entry (kind, members, methods, type parameters) behind, taken from the origin *)
+Theorem C01_generic_description_independent_of_first_use : forall v2 p, named_ok v2 p ->
+  forall f1 f2 u1 u2 use1 use2 t1 t2 tstr1 tstr2 cls1 cls2 under1 under2 ms1 ms2 tps origin1 origin2 under' ms' ts sh u1' u2' o1 o2,
+  (wf u1 /\ canonical v2 u1 /\ pristine u1) -> (wf u2 /\ canonical v2 u2 /\ pristine u2) ->
+  plookup t1 p = Some (tstr1, SNamed cls1 under1 ms1 tps origin1) -> N.eqb cls1 0 = false -> (N.eqb cls1 1 && v2) = true ->
+  plookup t2 p = Some (tstr2, SNamed cls2 under2 ms2 tps origin2) -> N.eqb cls2 0 = false -> (N.eqb cls2 1 && v2) = true ->
+  generic_name v2 tstr2 tps = generic_name v2 tstr1 tps ->
+  origin_of p origin1 under1 ms1 = (under', ms') -> origin_of p origin2 under2 ms2 = (under', ms') ->
+  plookup under' p = Some (ts, sh) -> children_keyed v2 p sh ->
+  Forall (fun m => keyed v2 p (Some (name_of_string v2 (snd (fst m)))) (snd m)) ms' ->
+  forallb (fun a => is_tparam p (snd a)) tps = true ->
+  Forall (fun a => forall k0, node_key v2 p None (snd a) = Some k0 ->
+                     k0 <> generic_name v2 tstr1 tps /\ canon v2 k0 <> canon v2 (generic_name v2 tstr1 tps)) tps ->
+  complete (fst (get_or_create v2 u1 (generic_name v2 tstr1 tps))) (snd (get_or_create v2 u1 (generic_name v2 tstr1 tps))) = false ->
+  complete (fst (get_or_create v2 u2 (generic_name v2 tstr1 tps))) (snd (get_or_create v2 u2 (generic_name v2 tstr1 tps))) = false ->
+  walk v2 p (S f1) u1 use1 t1 = Some (u1', o1) -> walk v2 p (S f2) u2 use2 t2 = Some (u2', o2) ->
+  o1 = o2 /\ exists e, nlookup o1 (objs u1') = Some e /\ nlookup o2 (objs u2') = Some e.
+Proof. exact generic_entry_independent. Qed.
+Print Assumptions C01_generic_description_independent_of_first_use.
 
 (* non-vacuity: p.T = struct{ A int8; B *p.T } *)
 Definition ex_prog : prog :=
